@@ -21,7 +21,47 @@ _CLS = {tag: getattr(smx, name) for tag, name in M.CLASS_OF.items()}
 _TAG_BY_CLS = {cls: tag for tag, cls in _CLS.items()}
 
 
+def operator_buildable(t) -> bool:
+    """The tree can be written with the operator syntax alone: two-argument sums/products, Minus, Divide, Power,
+    Negation and integer powers over leaves."""
+    tag = t[0]
+    if tag in ("var", "const"):
+        return True
+    if tag in M.NARY:
+        return len(t[1]) == 2 and all(operator_buildable(c) for c in t[1])
+    if tag in M.BINARY or tag == "neg":
+        return all(operator_buildable(c) for c in M.children(t))
+    if tag == "npow":
+        return isinstance(t[2], int) and operator_buildable(t[1])
+    return False
+
+
+def build_with_operators(t):
+    """The same expression written the way users write it: a + b, a - b, a * b, a / b, a ** b, -a, a ** n."""
+    tag = t[0]
+    if tag in ("var", "const"):
+        return build(t)
+    ks = [build_with_operators(c) for c in M.children(t)]
+    if tag == "add":
+        return ks[0] + ks[1]
+    if tag == "mul":
+        return ks[0] * ks[1]
+    if tag == "minus":
+        return ks[0] - ks[1]
+    if tag == "div":
+        return ks[0] / ks[1]
+    if tag == "pow":
+        return ks[0] ** ks[1]
+    if tag == "neg":
+        return -ks[0]
+    if tag == "npow":
+        return ks[0] ** t[2]
+    raise ValueError(tag)
+
+
 def build(t, share: bool = False, _memo=None):
+    if share == "ops":
+        return build_with_operators(t)
     """Construct the implementation expression for model term t through the public constructors.
 
     share=False: a fresh object per occurrence (a tree).
